@@ -998,7 +998,11 @@ func (fr *FuncRun) checkThreadPre(f *Frame, st *State, fc *FuncContract, target 
 			}
 		}
 	}
-	ctx := &EvalCtx{fr: fr, f: nf, st: st, old: st, pkg: fr.eng.pkgOf(target), binds: binds}
+	// a new goroutine starts without any lock, whatever its creator holds
+	tst := st.clone()
+	hh := fr.w.HeldHeap()
+	tst.heaps[hh] = fr.defAlways(fr.w.heapSorts[hh], "((as const (Array Int Int)) 0)", hh)
+	ctx := &EvalCtx{fr: fr, f: nf, st: tst, old: tst, pkg: fr.eng.pkgOf(target), binds: binds}
 	for i, r := range fc.Requires {
 		t := fr.evalClause(ctx, r)
 		fr.assertOb(st, "pre", fmt.Sprintf("go %s:%d", funcShortName(target), i+1), t, pos, "precondition of spawned thread: "+r.Text)
